@@ -235,6 +235,8 @@ def STORE_RACE_TASKS(tier):
     for p in ST_SCENS:
         ts += explore(p + "-mock", "", b, race=True, timeout=to)
         ts += explore(p + "-badger-prefix", "", b, race=True, shards=2, timeout=to)
+    # index maintenance against Flush and queries; two store handles on one database
+    ts += explore("IX1", "", 2, race=True, shards=2, timeout=to) + explore("ST4-badger", "", 2, race=True, timeout=to)
     return ts
 
 
